@@ -84,6 +84,7 @@ type Engine struct {
 	FeasStats map[string]int
 	ReusedArrays int
 	models    []*cachedModel
+	debugModel map[string]uint64
 	light     *Solver
 }
 
@@ -546,6 +547,7 @@ type Frame struct {
 	back   map[*LoopInfo]map[int]*Term
 	callG  *Term
 	cur    *ssa.BasicBlock
+	traceBlocks bool
 }
 
 func (e *Engine) constValue(c *ssa.Const) Value {
@@ -701,6 +703,10 @@ func (e *Engine) call(fn *ssa.Function, args []Value, g *Term, pos token.Pos) Va
 			n += len(b.Instrs)
 		}
 		e.FnCount[name] = n
+	}
+	if dn := os.Getenv("GOSMT_DUMPFN"); dn != "" && dn == fn.Name() {
+		fn.WriteTo(os.Stderr)
+		fr.traceBlocks = true
 	}
 	fr.runRegion(nil)
 	// merge returns
@@ -949,6 +955,18 @@ func (f *Frame) runLoop(L *LoopInfo) {
 		if !e.feasibleW(bg, "loop") {
 			if e.trace {
 				e.logf("LOOPQ unsat %s it=%d", e.pos(L.header.Instrs[0].Pos()), it)
+				if os.Getenv("GOSMT_EXPLAIN") != "" {
+					e.logf("   bg = %s", bg.render(7))
+					acc := TS.True
+					for _, c := range bg.args {
+						acc = And(acc, c)
+						r, _, _ := e.solver.Check(acc, false)
+						e.logf("   conjunct %s -> cumulative %s", c.render(5), r)
+						if r == Unsat {
+							break
+						}
+					}
+				}
 			}
 			break
 		}
@@ -1032,6 +1050,9 @@ func (f *Frame) execBlock(b *ssa.BasicBlock) {
 	}
 	g := Or(gs...)
 	f.guard[b.Index] = g
+	if f.traceBlocks {
+		e.logf("BLOCK %d (%s) guard=%s", b.Index, b.Comment, g.render(2))
+	}
 	if g.IsFalse() {
 		return
 	}
